@@ -83,6 +83,11 @@ class ErrGen:
                 return [Asg("g", g), Core("print", [MCall(App(Id("g"), []), "to_tuple", [])])]
             return [Asg("g", g), Asg("it", App(Id("g"), [])), Core("print", [MCall(Id("it"), "next", [])]),
                     Core("print", [MCall(Id("it"), "next", [])]), Core("print", [MCall(Id("it"), "next", [])])]
+        if c < 0.86:
+            # inside an overloaded operator (a nested execution on the same VM)
+            v = self.newvar()
+            return [Asg("opf", Fn([Param("rhs")], Block([self.as_stmt(f), Int(1)]))),
+                    Asg("obj", Map([], [], ["@+"], [Id("opf")])), Asg(v, Bin("+", Id("obj"), Int(1))), Core("print", [Id(v)])]
         if c < 0.9:
             v = self.newvar()
             return [Asg(v, Map(["a", "b"], [App(Id("t"), [Int(1)]), f]))]
